@@ -53,88 +53,112 @@ def stripPrefix (eq : Char → Char → Bool) : List Char → List Char → Opti
   | _ :: _, [] => none
   | p :: ps, c :: cs => if eq p c then stripPrefix eq ps cs else none
 
-/-- Result of matching: tokens produced and the remaining input. -/
-abbrev Res := Option (List Tree × List Char)
+/-- Result of matching: tokens produced and the remaining input, a failed match, or "out of fuel"
+(the recursion bound was hit: the answer is unknown and must not be taken for a failed match —
+an ordered choice may only fall through to its next alternative when the previous one really fails). -/
+inductive Res
+  | ok (ts : List Tree) (rest : List Char)
+  | fail
+  | oof
+  deriving Repr, Inhabited
 
-/-- The interpreter. `pos0` tells whether we are at the very start of the input (for `SOI`).
-`fuel` bounds the recursion depth (rule calls, repetitions). -/
+def Res.ofOpt : Option (List Char) → Res
+  | some r => .ok [] r
+  | none => .fail
+
+/-- One character satisfying `p`. -/
+def oneChar (p : Char → Bool) : List Char → Res
+  | c :: cs => if p c then .ok [] cs else .fail
+  | [] => .fail
+
+/-- The interpreter. `atStart` tells whether we are at the very start of the input (for `SOI`).
+`fuel` bounds the recursion depth (rule calls, repetitions); running out of it is reported as `oof`
+and propagates to the top. -/
 def run (g : Grammar) : Nat → Expr → Bool → List Char → Res
-  | 0, _, _, _ => none
+  | 0, _, _, _ => .oof
   | fuel + 1, e, atStart, inp =>
     match e with
-    | .str s => (stripPrefix (· == ·) s inp).map fun r => ([], r)
-    | .istr s => (stripPrefix (fun p c => lowerC p == lowerC c) s inp).map fun r => ([], r)
-    | .range lo hi =>
-      match inp with
-      | c :: cs => if lo ≤ c ∧ c ≤ hi then some ([], cs) else none
-      | [] => none
+    | .str s => Res.ofOpt (stripPrefix (· == ·) s inp)
+    | .istr s => Res.ofOpt (stripPrefix (fun p c => lowerC p == lowerC c) s inp)
+    | .range lo hi => oneChar (fun c => decide (lo ≤ c ∧ c ≤ hi)) inp
     | .builtin b =>
       match b with
-      | .soi => if atStart then some ([], inp) else none
-      | .eoi => if inp.isEmpty then some ([.node "EOI" [] []], inp) else none
-      | .any => match inp with | _ :: cs => some ([], cs) | [] => none
+      | .soi => if atStart then .ok [] inp else .fail
+      | .eoi => if inp.isEmpty then .ok [.node "EOI" [] []] inp else .fail
+      | .any => oneChar (fun _ => true) inp
       | .newline =>
         match inp with
-        | '\n' :: cs => some ([], cs)
-        | '\r' :: '\n' :: cs => some ([], cs)
-        | '\r' :: cs => some ([], cs)
-        | _ => none
-      | .ascii_bin_digit => match inp with | c :: cs => if c == '0' || c == '1' then some ([], cs) else none | [] => none
-      | .ascii_hex_digit => match inp with | c :: cs => if isHex c then some ([], cs) else none | [] => none
-      | .ascii_alpha => match inp with | c :: cs => if isAlpha c then some ([], cs) else none | [] => none
-      | .ascii_alphanumeric =>
-        match inp with | c :: cs => if isAlpha c || isDigit c then some ([], cs) else none | [] => none
+        | '\n' :: cs => .ok [] cs
+        | '\r' :: '\n' :: cs => .ok [] cs
+        | '\r' :: cs => .ok [] cs
+        | _ => .fail
+      | .ascii_bin_digit => oneChar (fun c => c == '0' || c == '1') inp
+      | .ascii_hex_digit => oneChar isHex inp
+      | .ascii_alpha => oneChar isAlpha inp
+      | .ascii_alphanumeric => oneChar (fun c => isAlpha c || isDigit c) inp
     | .seq a b =>
       match run g fuel a atStart inp with
-      | some (ta, r1) =>
+      | .ok ta r1 =>
         match run g fuel b (atStart && r1.length == inp.length) r1 with
-        | some (tb, r2) => some (ta ++ tb, r2)
-        | none => none
-      | none => none
+        | .ok tb r2 => .ok (ta ++ tb) r2
+        | .fail => .fail
+        | .oof => .oof
+      | .fail => .fail
+      | .oof => .oof
     | .choice a b =>
       match run g fuel a atStart inp with
-      | some r => some r
-      | none => run g fuel b atStart inp
+      | .ok ts r => .ok ts r
+      | .fail => run g fuel b atStart inp
+      | .oof => .oof
     | .opt a =>
       match run g fuel a atStart inp with
-      | some r => some r
-      | none => some ([], inp)
+      | .ok ts r => .ok ts r
+      | .fail => .ok [] inp
+      | .oof => .oof
     | .star a =>
       match run g fuel a atStart inp with
-      | some (ta, r1) =>
+      | .ok ta r1 =>
         if r1.length < inp.length then
           match run g fuel (.star a) false r1 with
-          | some (tb, r2) => some (ta ++ tb, r2)
-          | none => some (ta, r1)
-        else some (ta, r1)   -- no progress: stop (pest rejects such grammars)
-      | none => some ([], inp)
+          | .ok tb r2 => .ok (ta ++ tb) r2
+          | .fail => .ok ta r1
+          | .oof => .oof
+        else .ok ta r1   -- no progress: stop (pest rejects such grammars)
+      | .fail => .ok [] inp
+      | .oof => .oof
     | .plus a =>
       match run g fuel a atStart inp with
-      | some (ta, r1) =>
+      | .ok ta r1 =>
         match run g fuel (.star a) (atStart && r1.length == inp.length) r1 with
-        | some (tb, r2) => some (ta ++ tb, r2)
-        | none => some (ta, r1)
-      | none => none
+        | .ok tb r2 => .ok (ta ++ tb) r2
+        | .fail => .ok ta r1
+        | .oof => .oof
+      | .fail => .fail
+      | .oof => .oof
     | .rep a mn mx =>
-      if mx = 0 then some ([], inp) else
+      if mx = 0 then .ok [] inp else
       match run g fuel a atStart inp with
-      | some (ta, r1) =>
+      | .ok ta r1 =>
         match run g fuel (.rep a (mn - 1) (mx - 1)) (atStart && r1.length == inp.length) r1 with
-        | some (tb, r2) => some (ta ++ tb, r2)
-        | none => if mn ≤ 1 then some (ta, r1) else none
-      | none => if mn = 0 then some ([], inp) else none
+        | .ok tb r2 => .ok (ta ++ tb) r2
+        | .fail => if mn ≤ 1 then .ok ta r1 else .fail
+        | .oof => .oof
+      | .fail => if mn = 0 then .ok [] inp else .fail
+      | .oof => .oof
     | .notP a =>
       match run g fuel a atStart inp with
-      | some _ => none
-      | none => some ([], inp)
+      | .ok _ _ => .fail
+      | .fail => .ok [] inp
+      | .oof => .oof
     | .rule n =>
       match g.find n with
-      | none => none
+      | none => .fail
       | some rd =>
         match run g fuel rd.body atStart inp with
-        | some (ts, r) =>
-          if rd.silent then some (ts, r)
-          else some ([.node n (inp.take (inp.length - r.length)) ts], r)
-        | none => none
+        | .ok ts r =>
+          if rd.silent then .ok ts r
+          else .ok [.node n (inp.take (inp.length - r.length)) ts] r
+        | .fail => .fail
+        | .oof => .oof
 
 end Emu2a.Peg
